@@ -2628,3 +2628,21 @@ def _truth6(it, v):
 
 
 M.truth_hook = _truth6
+
+
+# ------------------------------------------------------------------------------------------ indexing a python list with a raw parameter value
+raw_index = z3.Function('raw_value_as_index', PVal, z3.IntSort())
+_prev_subscript7 = M.subscript
+
+
+def _subscript7(it, base, idx):
+    if isinstance(base, (list, tuple)) and isinstance(idx, (RawV, PValV)):
+        k = raw_index(idx.term)
+        for pos in range(len(base)):
+            if it.truth(z3.Or(k == pos, k == pos - len(base))):
+                return base[pos]
+        raise PyRaise(it.make_exc('IndexError', ['list index out of range']))
+    return _prev_subscript7(it, base, idx)
+
+
+M.subscript = _subscript7
